@@ -18,6 +18,7 @@ import (
 	"context"
 	"fmt"
 	"io"
+	"sort"
 	"strings"
 	"time"
 
@@ -52,10 +53,39 @@ func (j *Builder) Day(d time.Time) *Day {
 	return dict.GetDefault(j.days, d, func() *Day { return &Day{Date: d} })
 }
 
+// Build returns the journal with its days in ascending order. Included files
+// are parsed concurrently and their directives are added in whatever order the
+// goroutines finish; within a day, directives of one kind are therefore brought
+// into the order of their source locations (file path, then position), so that
+// evaluation (which of two same-day prices wins) and printing do not depend on
+// goroutine scheduling. Directives without a source location keep their
+// relative order.
 func (j *Builder) Build() *Journal {
-	return &Journal{
-		Days: dict.SortedValues(j.days, CompareDays),
+	days := dict.SortedValues(j.days, CompareDays)
+	for _, d := range days {
+		sort.SliceStable(d.Prices, func(i, j int) bool {
+			return d.Prices[i].Src != nil && d.Prices[j].Src != nil && sourceBefore(d.Prices[i].Src.Range, d.Prices[j].Src.Range)
+		})
+		sort.SliceStable(d.Openings, func(i, j int) bool {
+			return d.Openings[i].Src != nil && d.Openings[j].Src != nil && sourceBefore(d.Openings[i].Src.Range, d.Openings[j].Src.Range)
+		})
+		sort.SliceStable(d.Assertions, func(i, j int) bool {
+			return d.Assertions[i].Src != nil && d.Assertions[j].Src != nil && sourceBefore(d.Assertions[i].Src.Range, d.Assertions[j].Src.Range)
+		})
+		sort.SliceStable(d.Closings, func(i, j int) bool {
+			return d.Closings[i].Src != nil && d.Closings[j].Src != nil && sourceBefore(d.Closings[i].Src.Range, d.Closings[j].Src.Range)
+		})
 	}
+	return &Journal{
+		Days: days,
+	}
+}
+
+func sourceBefore(r1, r2 syntax.Range) bool {
+	if r1.Path != r2.Path {
+		return r1.Path < r2.Path
+	}
+	return r1.Start < r2.Start
 }
 
 func (j *Builder) Add(d model.Directive) error {
